@@ -662,8 +662,19 @@ fn stress_session(ctx: &Ctx, idx: usize, seeds: &[String], cycles: u64) {
         steps: vec![],
         held_ms: 0,
     };
+    let mut prev: Option<Game> = None;
     for _ in 0..cycles {
-        let g = random_game(&mut rng, seeds, 12, true);
+        // half of the cycles continue the game of the previous cycle by a move or two (so the new
+        // root was already visited by the previous search and sits in the cache), the others start afresh
+        let n_more = 1 + rng.below(2);
+        let g = match &prev {
+            Some(pg) if rng.chance(1, 2) => {
+                let x = super::uci::extend_game(&mut rng, pg, n_more);
+                if x.last().legal_moves().is_empty() { random_game(&mut rng, seeds, 12, true) } else { x }
+            }
+            _ => random_game(&mut rng, seeds, 12, true),
+        };
+        prev = Some(g.clone());
         e.send(&g.command());
         let go = *rng.pick(&[
             "go infinite",
